@@ -156,7 +156,8 @@ func runTypes(ctx *common.Ctx, g *gen) {
 			tset[x] = true
 		}
 	}
-	for _, x := range []string{"null", "atom", "no-such-type", "FIXNUM", "Integer", "LIST", "T", "keyword", "boolean", "cons", "list", "NULL", "Symbol"} {
+	for _, x := range []string{"null", "atom", "no-such-type", "FIXNUM", "Integer", "LIST", "T", "keyword", "boolean", "cons", "list", "NULL", "Symbol",
+		"SHORT-FLOAT", "Short-Float", "BYTE", "Cons", "Sequence"} {
 		tset[x] = true
 	}
 	tsyms := common.SortedKeys(tset)
@@ -232,7 +233,7 @@ func runTypes(ctx *common.Ctx, g *gen) {
 	}
 	// subtypep on pairs of names
 	pairs := [][2]string{}
-	subNames := append(append([]string{}, names...), "no-such-type", "list", "cons", "null", "FIXNUM", "Integer")
+	subNames := append(append([]string{}, names...), "no-such-type", "list", "cons", "null", "FIXNUM", "Integer", "SHORT-FLOAT", "Byte", "NULL", "t")
 	if len(subNames)*len(subNames) <= 4000 || ctx.Thorough() {
 		for _, a := range subNames {
 			for _, b := range subNames {
